@@ -126,11 +126,17 @@ decreasing_by
     simp only [List.length_drop]
     omega
 
-/-- `Sha256::update` -/
+/-- truncation of a value to an unsigned integer type of `bits` bits (the widths of `bit_len_` and of
+    the cast applied to `data.size()` are read from the source: `Generated/C08.lean`) -/
+def wrapBits (bits : Nat) (x : UInt64) : UInt64 := UInt64.ofNat (x.toNat % 2 ^ bits)
+
+/-- `Sha256::update`: `bit_len_ += static_cast<T>(data.size()) * 8` computed in (at most) 64 bits,
+    stored into a `bit_len_` of `bitLenBits` bits -/
 def update (s : State) (data : List UInt8) : State :=
   if data.isEmpty then s
   else
-    let bitLen := s.bitLen + UInt64.ofNat data.length * UInt64.ofNat bitsPerByte
+    let bitLen := wrapBits bitLenBits
+      (s.bitLen + wrapBits bitLenCastBits (UInt64.ofNat data.length) * UInt64.ofNat bitsPerByte)
     let (st, buf) := updateLoop s.st s.buf data
     { st := st, buf := buf, bitLen := bitLen }
 
